@@ -28,7 +28,7 @@ COMPONENTS = {
 }
 ASSUMPTIONS = ['gc is disabled; collections happen only as generated operations',
                'answers are compared after normalisation: bool / exception class family / comparison result']
-PROBES = ['same_named_classes', 'gc_after_del', 'cache_clears', 'failing_ops', 'lookalike_hints', 'fwdref_define_later',
+PROBES = ['door_string_queries', 'same_named_classes', 'gc_after_del', 'cache_clears', 'failing_ops', 'lookalike_hints', 'fwdref_define_later',
           'queries', 'repeat_queries']
 
 CLS_NAMES = ['K', 'L', 'M']
@@ -419,11 +419,28 @@ def generate(rng, run, tier):
         else:
             hist.append({'op': 'mkhint', 'h': nh, 'dsl': gen_hint(rng, nslots)})
             nh += 1
+    if rng.random() < 0.12:
+        # door functions with *string* hints resolved against the user module, the name bound first to one thing (an
+        # ignorable alias more often than not) and then to another
+        name = rng.choice(['Later', 'Later2'])
+        text = rng.choice(DOOR_TEXTS_ROOT + (DOOR_TEXTS_NESTED if rng.random() < 0.1 else [])).format(N=name)
+        first = rng.choice(['ALIAS:object', 'ALIAS:Any', 'ALIAS:object', 'cls', 'ALIAS:int'])
+        second = rng.choice(['cls', 'ALIAS:int', 'ALIAS:str', 'ALIAS:object'])
+        for bind in (first, second):
+            hist.append({'op': 'define', 'n': name} if bind == 'cls' else {'op': 'define', 'n': name, 'junk': bind})
+            for _ in range(rng.randint(1, 2)):
+                hist.append({'op': 'query', 'q': 'door_str', 'text': text, 'api': rng.choice(['is_bearable', 'is_bearable', 'die']),
+                             'xk': rng.choice(['str', 'int', 'inst', 'other']), 'draw': 0})
     return {'hist': hist, 'nslots': nslots}
 
 
 # ------------------------------------------------------------------ execution
 MODNAME = 'c14_user_mod'
+# string hints handed to the door functions from the user module: the name at the root / directly in a union, or nested in a
+# container (avoid switch: the nested forms after an ignorable alias are known finding C14-door-nested-string-after-ignorable-alias)
+DOOR_TEXTS_ROOT = ["'{N}'", "Union['{N}', bytes]", "Optional['{N}']", "'{N}'"]
+DOOR_TEXTS_NESTED = ["list['{N}']", "dict[str, '{N}']", "tuple['{N}', ...]", "list[Optional['{N}']]"]
+ALIASES = {'ALIAS:object': object, 'ALIAS:int': int, 'ALIAS:str': str}
 PREFIXES = ['P: ', 'P: ', 'is_bearable() ', 'die_if_unbearable() ', '']
 QCONFS = [None, {'is_color': False}, {'tower': True}, {'strategy': 'On'}, {'vt': 'valueerror'}]
 
@@ -481,7 +498,9 @@ def _apply(op, env, probes=None):
                 pass
     elif k == 'define':
         if 'junk' in op:
-            setattr(env['mod'], op['n'], op['junk'])
+            import typing
+            j = op['junk']
+            setattr(env['mod'], op['n'], typing.Any if j == 'ALIAS:Any' else ALIASES.get(j, j) if isinstance(j, str) else j)
         else:
             setattr(env['mod'], op['n'], type(op['n'], (), {'__module__': MODNAME}))
     elif k == 'defdec':
@@ -518,6 +537,37 @@ def _query(op, env):
     from beartype import BeartypeConf, beartype, door
     from sim import boot
     q = op['q']
+    if q == 'door_str':
+        import typing
+        mod = env['mod']
+        if '_c14_door' not in mod.__dict__:
+            # the calls are made *from the user module*, whose globals the string hints are resolved against
+            exec('from beartype.door import is_bearable as _c14_ib, die_if_unbearable as _c14_die\n'
+                 'def _c14_door(api, x, h):\n'
+                 '    return _c14_ib(x, h) if api == "is_bearable" else _c14_die(x, h)\n', mod.__dict__)
+        name = 'Later2' if 'Later2' in op['text'] else 'Later'
+        bound = mod.__dict__.get(name)
+        hint = eval(op['text'], {'Union': typing.Union, 'Optional': typing.Optional})
+        other = type('Other', (), {})
+        xk = op['xk']
+        if xk == 'inst' and not (isinstance(bound, type) and bound.__module__ == MODNAME):
+            xk = 'other'
+        x = {'inst': bound() if xk == 'inst' else None, 'other': other(), 'int': 5, 'str': 's'}[xk]
+        if 'list[' in op['text']:
+            x = [x]
+        elif 'dict[' in op['text']:
+            x = {'k': x}
+        elif 'tuple[' in op['text']:
+            x = (x, x)
+        boot.SAMPLER.sticky = op['draw']
+        try:
+            with warnings.catch_warnings():
+                warnings.simplefilter('ignore')
+                return ['ok', mod.__dict__['_c14_door'](op['api'], x, hint)]
+        except Exception as e:      # noqa
+            return ops.exc_outcome(e)[:3]
+        finally:
+            boot.SAMPLER.sticky = None
     if q == 'callfunc':
         fe = env.get('funcs', {}).get(op['f'])
         if fe is None:
@@ -659,6 +709,13 @@ def _deps(hist, qi):
                     idx.add(j)
                     break
         return sorted(idx)
+    if q['q'] == 'door_str':
+        # the binding of each name in force at query time
+        last = {}
+        for j in range(qi):
+            if hist[j]['op'] in ('define', 'defdec'):
+                last[hist[j]['n']] = j
+        return sorted(last.values())
     need_h = {q['h']}
     if 'h2' in q:
         need_h.add(q['h2'])
@@ -700,6 +757,8 @@ def execute(case):
             a = _query(op, env)
             answers[i] = a
             probes['queries'] += 1
+            if op['q'] == 'door_str':
+                probes['door_string_queries'] += 1
             if a and a[0] == 'exc':
                 probes['failing_ops'] += 1
             if op.get('twice') and a[0] != 'skipped':
@@ -844,6 +903,12 @@ def _why(hist, qi):
                 dup = True
             names[o['name']] = 1
     tags = [hist[qi]['q']]
+    if hist[qi]['q'] == 'door_str':
+        qq = hist[qi]
+        name = 'Later2' if 'Later2' in qq['text'] else 'Later'
+        nested = any(qq['text'].startswith(p) for p in ('list[', 'dict[', 'tuple['))
+        if nested and any(o['op'] == 'define' and o['n'] == name and o.get('junk') in ('ALIAS:object', 'ALIAS:Any') for o in hist[:qi]):
+            tags.append('nested_string_after_ignorable_alias')
     if _undetectable_redefinition(hist, qi):
         tags.append('undecorated_redefinition')
     if _registry_wiped_redefinition(hist, qi):
@@ -881,7 +946,12 @@ def _sig_registry_wipe(case, v):
     return v.get('kind') == 'history_dependence' and 'registry_wiped_redefinition' in v.get('key', '')
 
 
-SIGNATURES = {'repr_collision': _sig_repr_collision, 'fwdref_stale_after_undecorated_redefinition': _sig_plain_redefinition,
+def _sig_door_nested_alias(case, v):
+    return v.get('kind') == 'history_dependence' and 'nested_string_after_ignorable_alias' in v.get('key', '') \
+        and ("after the history ['ok', True]" in v.get('detail', '') or "after the history ['ok', None]" in v.get('detail', ''))
+
+
+SIGNATURES = {'door_nested_string_after_ignorable_alias': _sig_door_nested_alias, 'repr_collision': _sig_repr_collision, 'fwdref_stale_after_undecorated_redefinition': _sig_plain_redefinition,
               'fwdref_stale_after_registry_wipe': _sig_registry_wipe}
 
 
